@@ -31,10 +31,20 @@ Record round := mk_round {
   r_restore_err : bool; r_dst_ok : bool; r_dst : kvs; r_dst_files : list (name * bool)
 }.
 
+(* one copy-shard attempt of a sequence to the same destination *)
+Record cattempt := mk_cattempt {
+  ca_files : list sfile; ca_cache : kvs; ca_next_stem : name;
+  ca_cut : Z; ca_total : Z; ca_src_fail : Z; ca_src_fail_hdr : bool;
+  ca_src : kvs; ca_members : list amember; ca_archive_ok : bool;
+  ca_advertised : bool; ca_dst_ok : bool; ca_dst : kvs; ca_dst_files : list (name * bool)
+}.
+
 Inductive case :=
+| mk_copyseq (base : name) (attempts : list cattempt)
 | mk_incr (base : name) (rounds : list round)
 | mk_case (mode : N)                       (* 0 full, 1 import, 2 since, 3 cut, 4 rpc, 5 export, 6 busy, 7 source fault, 8 source fault through the RPC *)
-          (files : list sfile) (cache : kvs) (busy : bool)
+          (files : list sfile) (cache : kvs)
+          (snap : N)                       (* the source's snapshotter: 0 idle, 1 busy for all attempts, 2 snapshot compactions disabled *)
           (next_stem base : name)
           (since exlo exhi cut total : Z)
           (src_fail : Z) (src_fail_hdr : bool)  (* the source fails after this many complete members (-1: no fault); header of the next one written *)
@@ -148,26 +158,65 @@ Fixpoint run_rounds (base : name) (d : dshard) (rounds : list round) : bool * bo
 Definition check_incr (base : name) (rounds : list round) : N :=
   let '(a, s) := run_rounds base empty_dshard rounds in code a s.
 
+(* copy-shard attempts to the same destination: the model's destination state (absent, created
+   but empty, an older copy) is threaded through [copy_shard]; the property: an acknowledged
+   attempt leaves the destination reading like the source at that time, a faulty attempt is
+   acknowledged only if that is the case *)
+Fixpoint run_copyseq (base : name) (dst : option dshard) (atts : list cattempt) : bool * bool :=
+  match atts with
+  | [] => (true, true)
+  | a :: rest =>
+      let src := mk_shard (ca_files a) {| c_snap := []; c_hot := ca_cache a |} in
+      let wf := wf_files (sh_files (write_snapshot (ca_next_stem a) now_oracle src)) && wf_blocks (ca_files a) in
+      let cutk := if ca_cut a <? 0 then None else Some (ca_cut a) in
+      let sfail := if ca_src_fail a <? 0 then None else Some (Z.to_nat (ca_src_fail a), ca_src_fail_hdr a) in
+      let faulty := ((0 <=? ca_cut a) && (ca_cut a <? ca_total a)) || (0 <=? ca_src_fail a) in
+      let r := copy_shard (mk_faults false false SnapIdle cutk sfail false false) (ca_next_stem a) now_oracle base
+                          (map am_size (ca_members a)) src dst 1%N [] in
+      let archive_agree :=
+        match backup SnapIdle (ca_next_stem a) now_oracle base None src with
+        | Some (_, ms) => list_eqb member_equiv ms (map to_member (ca_members a))
+        | None => false
+        end in
+      let agree := wf && same_reads (shard_reads src) (ca_src a) && ca_archive_ok a && archive_agree &&
+                   Bool.eqb (ca_advertised a) (cr_rpc_ok r) && ca_dst_ok a &&
+                   same_reads (match cr_dst r with Some x => dshard_reads x | None => [] end) (ca_dst a) &&
+                   list_eqb name_flag_eqb (match cr_dst r with Some x => dshard_file_list x | None => [] end) (ca_dst_files a) in
+      let spec := if faulty then advertised_only_if_exact (ca_advertised a) (ca_dst_ok a) (ca_src a) (ca_src a) (ca_dst a) []
+                  else ca_advertised a && ca_dst_ok a && same_reads (ca_dst a) (ca_src a) in
+      let '(ag, sp) := run_copyseq base (cr_dst r) rest in
+      (agree && ag, spec && sp)
+  end.
+
+Definition check_copyseq (base : name) (atts : list cattempt) : N :=
+  let '(a, s) := run_copyseq base None atts in code a s.
+
 Definition check_case (c : case) : N :=
   match c with
   | mk_incr base rounds => check_incr base rounds
-  | mk_case mode files cache busy next_stem base since exlo exhi cut total src_fail src_fail_hdr during extra
+  | mk_copyseq base attempts => check_copyseq base attempts
+  | mk_case mode files cache snap next_stem base since exlo exhi cut total src_fail src_fail_hdr during extra
             src_before src_after backup_err members archive_ok restore_err dst_ok dst dst_files advertised =>
     let src0 := mk_shard files {| c_snap := []; c_hot := cache |} in
-    let oracle := if busy then SnapBusy else SnapIdle in
     let cutk := if cut <? 0 then None else Some cut in
-    let is_cut := ((0 <=? cut) && (cut <? total)) || (0 <=? src_fail) in
+    let is_cut := ((0 <=? cut) && (cut <? total)) || (0 <=? src_fail) || N.eqb snap 2 in
     let sfail := if src_fail <? 0 then None else Some (Z.to_nat src_fail, src_fail_hdr) in
     let obs_members := map to_member members in
     let sizes := map am_size members in
     (* -- what the model predicts for one candidate source state -- *)
     let predict (src : shard) (late : list (key * tv)) : bool :=
+      (* disabled snapshot compactions: WriteSnapshot fails unless there is nothing to write *)
+      let oracle := if N.eqb snap 1 then SnapBusy
+                    else if N.eqb snap 2 && negb (cache_is_empty (sh_cache src)) then SnapFail else SnapIdle in
       let wf := wf_files (sh_files (write_snapshot next_stem now_oracle src)) && wf_blocks files in
       let archive :=
         if N.eqb mode 5 then export oracle next_stem now_oracle base exlo exhi src
         else backup oracle next_stem now_oracle base (if N.eqb mode 2 then Some since else None) src in
       match archive with
-      | None => wf && backup_err
+      | None => (* the source's backup fails before the first byte; through the RPC the destination
+                   only sees the connection close: nothing installed, nothing acknowledged *)
+                wf && (backup_err ||
+                       ((N.eqb mode 4 || N.eqb mode 8) && restore_err && negb advertised && dst_ok && same_reads [] dst))
       | Some (src', ms0) =>
           let ms := map to_member extra ++ ms0 in
           let members_agree := list_eqb member_equiv ms obs_members in
